@@ -205,7 +205,7 @@ def work_rate(chunk, st):
             if ev[0] == 'established':
                 live.add(ev[1])
                 peak = max(peak, len(live))
-            elif ev[0] == 'close':
+            elif ev[0] in ('close', 'recv-rst', 'peer-reset-seen'):      # a connection the peer has aborted no longer exists on the target
                 live.discard(ev[1])
         if peak > 3:
             st.violation('rate:%s:too-many-concurrent' % btag, dict(detail, peak=peak))
